@@ -98,10 +98,13 @@ pub fn expr_into_utxo_refs(expr: &tir::Expression) -> Result<Vec<UtxoRef>, Error
         tir::Expression::UtxoRefs(x) => Ok(x.clone()),
         tir::Expression::UtxoSet(x) => Ok(x.iter().map(|x| x.r#ref.clone()).collect()),
         tir::Expression::String(x) => {
-            let (raw_txid, raw_output_ix) = x.split_once("#").expect("Invalid utxo ref");
+            let invalid = || Error::CoerceError(x.clone(), "UtxoRef".to_string());
+
+            let (raw_txid, raw_output_ix) = x.split_once("#").ok_or_else(invalid)?;
+
             Ok(vec![UtxoRef {
-                txid: hex::decode(raw_txid).expect("Invalid hex txid"),
-                index: raw_output_ix.parse().expect("Invalid output index"),
+                txid: hex::decode(raw_txid).map_err(|_| invalid())?,
+                index: raw_output_ix.parse().map_err(|_| invalid())?,
             }])
         }
         _ => Err(Error::CoerceError(
